@@ -338,7 +338,7 @@ pub fn compare(o: &Observed, m: &Model, s: &Sut) -> Result<(), (&'static str, St
 }
 
 #[derive(Default)]
-pub struct SeqStats { pub reorders: u64, pub cycles: u64, pub reinserts: u64, pub removals: u64, pub stale: u64, pub ops: u64 }
+pub struct SeqStats { pub reorders: u64, pub cycles: u64, pub reinserts: u64, pub removals: u64, pub stale: u64, pub ops: u64, pub max_moved: u64 }
 
 /// Runs one sequence; `check_every` = compare all queries after every op (else only after the last one).
 pub fn run_sequence(init_nodes: usize, ops: &[GOp], check_every: bool, stats: &mut SeqStats) -> Result<(), (&'static str, String, usize)> {
@@ -395,6 +395,87 @@ pub fn run_sequence(init_nodes: usize, ops: &[GOp], check_every: bool, stats: &m
     }
   }
   Ok(())
+}
+
+/// Large graphs (40-120 nodes): a random DAG is built in creation order (no reordering yet), then late / fresh nodes
+/// get edges to early nodes with many descendants, so that single insertions have to reorder dozens of nodes. Return
+/// values are compared at every step; the full observation is compared with the model after each of the final
+/// `tail` operations only (an observation costs O(n^2) reachability queries).
+pub fn large_reorder_sequence(rng: &mut Rng) -> (usize, Vec<GOp>, usize) {
+  let n = rng.range(40, 120);
+  let mut ops = Vec::new();
+  let mut m = Model::default();
+  for _ in 0..n { m.add_node(); }
+  let mut serial = 1u32;
+  let fan = rng.range(1, 3);
+  for j in 1..n {
+    // every node gets 1..=fan parents among the earlier nodes, biased to recent ones (long chains) or to node 0..3 (wide)
+    for _ in 0..rng.range(1, fan) {
+      let i = if rng.chance(1, 3) { rng.below(4.min(j)) } else { j - 1 - rng.below(3.min(j)) };
+      if i != j { ops.push(GOp::AddEdge(i, j)); serial += 1; model_apply(&mut m, GOp::AddEdge(i, j), serial); }
+    }
+  }
+  let build = ops.len();
+  let mut slots = n;
+  for _ in 0..rng.range(4, 10) {
+    match rng.below(3) {
+      0 => {
+        // a fresh node (ranked last) requires an early node with a large subtree
+        ops.push(GOp::AddNode); slots += 1; serial += 1; model_apply(&mut m, GOp::AddNode, serial);
+        let dst = rng.below(6);
+        ops.push(GOp::AddEdge(slots - 1, dst)); serial += 1; model_apply(&mut m, GOp::AddEdge(slots - 1, dst), serial);
+      }
+      1 => {
+        // a late node requires an early node (cycle attempt or two-sided reorder)
+        let (a, b) = (n - 1 - rng.below(n / 2), rng.below(n / 3));
+        ops.push(GOp::AddEdge(a, b)); serial += 1; model_apply(&mut m, GOp::AddEdge(a, b), serial);
+      }
+      _ => {
+        let (a, b) = (rng.below(slots), rng.below(slots));
+        ops.push(GOp::AddEdge(a, b)); serial += 1; model_apply(&mut m, GOp::AddEdge(a, b), serial);
+      }
+    }
+  }
+  let tail = ops.len() - build;
+  (n, ops, tail)
+}
+
+pub fn run_sequence_tail_checked(init_nodes: usize, ops: &[GOp], tail: usize, stats: &mut SeqStats) -> Result<(), (&'static str, String, usize)> {
+  let mut sut = Sut::new();
+  let mut m = Model::default();
+  for _ in 0..init_nodes { sut.apply(GOp::AddNode, 0); m.add_node(); }
+  let mut serial = 1u32;
+  let mut ranks_before: Vec<Option<u32>> = Vec::new();
+  for (step, op) in ops.iter().enumerate() {
+    stats.ops += 1;
+    serial += 1;
+    let in_tail = step + tail >= ops.len();
+    if in_tail { ranks_before = observe_ranks(&sut); }
+    let want = model_apply(&mut m, *op, serial);
+    let got = sut.apply(*op, serial);
+    if let Ret::Cycle = want { stats.cycles += 1; }
+    if got != want {
+      let prop = match (&want, &got) { (Ret::Cycle, _) | (_, Ret::Cycle) | (Ret::Missing, _) | (_, Ret::Missing) => "C10", _ => "C11" };
+      return Err((prop, format!("{} returned {:?} but the model says {:?}", op.render(), got, want), step));
+    }
+    if in_tail {
+      let after = observe(&sut);
+      if matches!(want, Ret::Added(true)) {
+        let moved = ranks_before.iter().zip(after.ranks.iter()).filter(|(a, b)| a != b).count();
+        if moved > 0 { stats.reorders += 1; }
+        stats.max_moved = stats.max_moved.max(moved as u64);
+      }
+      if let Err((p, msg)) = compare(&after, &m, &sut) { return Err((p, format!("after {}: {}", op.render(), msg), step)); }
+    }
+  }
+  Ok(())
+}
+
+fn observe_ranks(s: &Sut) -> Vec<Option<u32>> {
+  let n = s.handles.len();
+  let mut ranks = vec![None; n];
+  for (r, node) in s.dag.iter_unsorted() { if let Some(&i) = s.index.get(&node) { if i < n { ranks[i] = Some(r); } } }
+  ranks
 }
 
 fn first_diff(a: &Observed, b: &Observed) -> String {
@@ -490,13 +571,18 @@ fn case_json(mode: &str, init: usize, ops: &[GOp]) -> J {
 fn record(rep: &mut Report, which: &'static str, mode: &str, seed: u64, case: u64, init: usize, ops: &[GOp]) {
   let mut st = SeqStats::default();
   // a panic inside the DAG (e.g. an unwrap on a node that a stale scratch buffer still refers to) is a wrong answer
-  let res = match crate::util::catch(|| { let mut st2 = SeqStats::default(); let r = run_sequence(init, ops, mode != "exhaustive", &mut st2); (r, st2) }) {
+  let res = match crate::util::catch(|| {
+    let mut st2 = SeqStats::default();
+    let r = if let Some(tail) = mode.strip_prefix("large:").and_then(|t| t.parse::<usize>().ok()) { run_sequence_tail_checked(init, ops, tail, &mut st2) } else { run_sequence(init, ops, mode != "exhaustive", &mut st2) };
+    (r, st2)
+  }) {
     Ok((r, st2)) => { st = st2; r }
     Err(msg) => Err((which, format!("the DAG panicked: {}", msg), ops.len().saturating_sub(1))),
   };
   rep.evaluations += 1;
   rep.add("ops", st.ops);
   rep.add("add_edge_reorders", st.reorders);
+  rep.max("max_nodes_moved_by_one_add_edge", st.max_moved);
   rep.add("cycle_rejections", st.cycles);
   rep.add("reinsertions_of_existing_edge", st.reinserts);
   rep.add("removals_with_effect", st.removals);
@@ -550,6 +636,10 @@ pub fn run(which: &'static str, tier: &str, seed: u64, only_case: Option<(String
       let alpha = alphabet(k, false);
       let ops = exhaustive_case(&alpha, len, case & ((1 << 40) - 1));
       record(&mut total, which, "exhaustive", seed, case, k, &ops);
+    } else if mode.starts_with("large") {
+      let mut rng = Rng::derive(seed ^ 0x1A26E, case);
+      let (init, ops, tail) = large_reorder_sequence(&mut rng);
+      record(&mut total, which, &format!("large:{}", tail), seed, case, init, &ops);
     } else {
       let mut rng = Rng::derive(seed, case);
       let len = rng.range(p.len_lo, p.len_hi);
@@ -581,7 +671,20 @@ pub fn run(which: &'static str, tier: &str, seed: u64, only_case: Option<(String
   });
   for r in parts { total.merge(r); }
   total.add("random_sequences", p.random);
-  total.rule = "operation sequences over add_edge/remove_edge/remove_outgoing_edges_of_node/remove_node (+add_node in random ones): every sequence of the listed exhaustive families (k initial nodes, exact length L) plus seeded random sequences biased to back edges, re-insertions and cycle attempts; after every operation (exhaustive: after every add_edge and after the last operation; every proper prefix is itself a member of a shorter family) all public queries for all nodes and ordered node pairs incl. stale handles are compared with a naive adjacency-list model. distinct = digest of the op sequence; non-trivial = (C10) at least one rank-changing add_edge or one cycle rejection, (C11) at least one effective removal, re-insertion or reorder".into();
+  // large graphs: single insertions that reorder dozens of nodes
+  if tier != "miri" {
+    let n_large: u64 = if tier == "thorough" { 6000 } else { 300 };
+    let parts = crate::util::parallel(n_large, threads, 4, Report::new, |i, rep: &mut Report| {
+      let mut rng = Rng::derive(seed ^ 0x1A26E, i);
+      let (init, ops, tail) = large_reorder_sequence(&mut rng);
+      record(rep, which, &format!("large:{}", tail), seed, i, init, &ops);
+      rep.alarm_total < 20
+    });
+    for r in parts { total.merge(r); }
+    total.add("large_graph_sequences", n_large);
+    total.floor("an insertion that moved more than 32 nodes", total.get("max_nodes_moved_by_one_add_edge") > 32);
+  }
+  total.rule = "operation sequences over add_edge/remove_edge/remove_outgoing_edges_of_node/remove_node (+add_node in random ones): every sequence of the listed exhaustive families (k initial nodes, exact length L) plus seeded random sequences biased to back edges, re-insertions and cycle attempts; after every operation (exhaustive: after every add_edge and after the last operation; every proper prefix is itself a member of a shorter family) all public queries for all nodes and ordered node pairs incl. stale handles are compared with a naive adjacency-list model; plus large graphs (40-120 nodes built in creation order, then fresh or late nodes pointed at early nodes with large subtrees, so that one insertion reorders dozens of nodes; all queries compared after each of those insertions). distinct = digest of the op sequence; non-trivial = (C10) at least one rank-changing add_edge or one cycle rejection, (C11) at least one effective removal, re-insertion or reorder".into();
   total.exhaustive = false;
   total.floor("at least one rank-changing add_edge", total.get("add_edge_reorders") > 0);
   total.floor("at least one cycle rejection", total.get("cycle_rejections") > 0);
